@@ -292,6 +292,25 @@ vlen_fn = z3.Function('vlen', VecSort, z3.IntSort())
 # ------------------------------------------------------------------------------------------------
 # containers of containers with symbolic index: list of sets, list of dicts (int -> int)
 
+_INT_TUPLES = {}
+
+
+def int_tuple_sort(n):
+    """datatype of n-tuples of integers (one constructor `mk`, accessors c0..c{n-1})"""
+    if n not in _INT_TUPLES:
+        d = z3.Datatype('IntTup%d' % n)
+        d.declare('mk', *[('c%d' % k, z3.IntSort()) for k in range(n)])
+        _INT_TUPLES[n] = d.create()
+    return _INT_TUPLES[n]
+
+
+def tuple_components(e):
+    """the components of a term of a single-constructor datatype sort, as z3 terms"""
+    srt = e.sort()
+    ctor = srt.constructor(0)
+    return [srt.accessor(0, k)(e) for k in range(ctor.arity())]
+
+
 Pair = z3.Datatype('Pair')
 Pair.declare('mk', ('p', z3.IntSort()), ('i', z3.IntSort()))
 Pair = Pair.create()
